@@ -31,3 +31,9 @@ Definition f_div_impl (a b : N) : N := bits32 (b32_div BinarySingleNaN.mode_NE (
 
 (* static_cast<double>(r) == 0.0 : plus or minus zero *)
 Definition f_is_zero_impl (r : N) : bool := (N.land r 2147483647 =? 0)%N.
+
+(* the two conversions are undefined outside their range: they never throw *)
+Lemma f_key_impl_nothrow : forall x e, f_key_impl x <> Throw e.
+Proof. intros x e. unfold f_key_impl. destruct (Binary.is_finite _ _ _); [destruct (_ && _)|]; discriminate. Qed.
+Lemma f_tosize_impl_nothrow : forall x e, f_tosize_impl x <> Throw e.
+Proof. intros x e. unfold f_tosize_impl. destruct (Binary.is_finite _ _ _); [destruct (_ && _)|]; discriminate. Qed.
